@@ -666,7 +666,7 @@ func toSubtitlesVTT(d vttDoc) *astisub.Subtitles {
 var vttKeywords = []string{"NOTE ", "NOTE", "STYLE", "Region: ", "X-TIMESTAMP-MAP", "WEBVTT"}
 
 var vttTextOpts = textOpts{
-	extra:    []string{"&amp;", "&lt;", "&nbsp;", "&gt;", "<b>", "</i>", "<c.red>", "<v Bob>", "<00:00:01.000>", "NOTE", "STYLE", "Region:", "->", "--", "12", "7", "&", "<", "a<b", "x>y", "<3", "WEBVTT", "::cue"},
+	extra:    []string{"&amp;", "&lt;", "&nbsp;", "&gt;", "<b>", "</i>", "<c.red>", "<v Bob>", "<00:00:01.000>", "NOTE", "STYLE", "Region:", "->", "--", "12", "7", "&", "<", "a<b", "x>y", "<3", "WEBVTT", "::cue", "NOTES", "NOTEBOOK:", "NOTE-", "STYLISH"},
 	forbid:   []string{"-->"},
 	controls: true,
 	nbsp:     true,
@@ -675,6 +675,13 @@ var vttTextOpts = textOpts{
 // guardKeyword makes sure a physical line does not begin with a block keyword.
 func guardKeyword(s string) string {
 	for _, k := range vttKeywords {
+		if k == "NOTE" {
+			// the comment keyword is the word NOTE: alone, or followed by a blank ("NOTES", "NOTEBOOK" are text)
+			if s == "NOTE" || strings.HasPrefix(s, "NOTE\t") {
+				return "'" + s
+			}
+			continue
+		}
 		if strings.HasPrefix(s, k) {
 			return "'" + s
 		}
@@ -776,13 +783,13 @@ func genVTTDoc(t *rapid.T, write bool) vttDoc {
 			c.Align = rapid.SampledFrom([]string{"start", "center", "end", "left", "right"}).Draw(t, "align")
 		}
 		if m&2 > 0 {
-			c.Line = rapid.SampledFrom([]string{"0", "-1", "10%", "84%", "5,start"}).Draw(t, "line")
+			c.Line = rapid.SampledFrom([]string{"0", "-1", "10%", "84%", "5,start", "12.5%", "33.33%,end"}).Draw(t, "line")
 		}
 		if m&4 > 0 {
-			c.Position = rapid.SampledFrom([]string{"50%", "10%,line-left", "100%"}).Draw(t, "position")
+			c.Position = rapid.SampledFrom([]string{"50%", "10%,line-left", "100%", "33.3%,line-left", "0.5%"}).Draw(t, "position")
 		}
 		if m&8 > 0 {
-			c.Size = rapid.SampledFrom([]string{"80%", "35%", "100%"}).Draw(t, "size")
+			c.Size = rapid.SampledFrom([]string{"80%", "35%", "100%", "62.5%"}).Draw(t, "size")
 		}
 		if m&16 > 0 {
 			c.Vertical = rapid.SampledFrom([]string{"rl", "lr"}).Draw(t, "vertical")
